@@ -18,12 +18,9 @@ ID = "C16"
 LEVEL = "exploration"
 MIN_OUTCOMES = 3
 MANIFEST = {
-    "text": "Every string of a stated finite grammar (PEP 440 spellings with epochs, pre/post/dev/local segments, separators, "
-    "leading zeros, case and blanks; bumpver-style and junk legacy strings) is parsed by the real comparison entry point, and "
-    "ALL ordered pairs are compared with all six operators: agreement with an integer rank embedding proves the preorder laws on the "
-    "whole set, agreement with packaging.version proves PEP 440 order and canonical text; exhaustive over the grammar.",
-    "note": "trusted base: packaging.version 26.3 as the PEP 440 reference; strings outside the grammar are not covered",
-    "technique": "exhaustive enumeration of a bounded input grammar, all-pairs comparison against rank embedding and reference order",
+    'text': 'Every string of a stated finite grammar (PEP 440 spellings with epochs, pre/post/dev/local segments, separators, leading zeros, case and blanks; bumpver-style and junk legacy strings) is parsed by the real comparison entry point, and ALL ordered pairs are compared with all six operators: agreement with an integer rank embedding proves the preorder laws on the whole set, agreement with packaging.version proves PEP 440 order and canonical text; exhaustive over the grammar. The two CLI call sites of the comparison (newest of config value and tag in `show`, the gate of `update --set-version`) are run for all ordered pairs of 13 versions whose text order differs from their PEP 440 order.',
+    'note': 'trusted base: packaging.version 26.3 as the PEP 440 reference; strings outside the grammar are not covered',
+    'technique': 'exhaustive enumeration of a bounded input grammar, all-pairs comparison against rank embedding and reference order',
 }
 RULE = (
     "one evaluation = one ordered pair (a, b) of grammar strings compared with < <= == != >= > on the real keys; "
